@@ -146,9 +146,80 @@ def library_sequence_stratum(ctx, ws, n):
                 break
 
 
+NESTED_MACROS = [
+    {"name": "@guarded", "args": ["reg", "action"], "pattern": [{"$and": [{"test": ["reg", "reg"]}, "action"]}]},
+    {"name": "@zero_reg", "args": ["reg"], "pattern": [{"$or": [{"xor": ["reg", "reg"]}, {"mov": [0, "reg"]}]}]},
+    {"name": "@twice", "args": ["what"], "pattern": [{"$and": ["what", "what"]}]},
+    {"name": "@save", "args": ["reg"], "pattern": [{"push": ["reg"]}]},
+]
+
+
+def _inline_nested(node):
+    """Manual inlining of the four NESTED_MACROS calls (written out by hand on purpose: no expander code shared with JASM)."""
+    if isinstance(node, list):
+        return [_inline_nested(x) for x in node]
+    if isinstance(node, dict):
+        if "@guarded" in node:
+            a = node["@guarded"] if isinstance(node["@guarded"], dict) else node
+            return {"$and": [{"test": [a["reg"], a["reg"]]}, _inline_nested(a["action"])]}
+        if "@zero_reg" in node:
+            a = node["@zero_reg"] if isinstance(node["@zero_reg"], dict) else node
+            return {"$or": [{"xor": [a["reg"], a["reg"]]}, {"mov": [0, a["reg"]]}]}
+        if "@twice" in node:
+            a = node["@twice"] if isinstance(node["@twice"], dict) else node
+            return {"$and": [_inline_nested(a["what"]), _inline_nested(a["what"])]}
+        if "@save" in node:
+            a = node["@save"] if isinstance(node["@save"], dict) else node
+            return {"push": [a["reg"]]}
+        return {k: _inline_nested(v) for k, v in node.items()}
+    return node
+
+
+def nested_call_probes(ctx, ws):
+    """An argument whose value is itself a call of another macro - both macros using the SAME formal name - in every spelling of
+    the two calls (arguments beside / under the call key, inner call before / after the sibling argument): each call receives its
+    own arguments, exactly as in the rule inlined by hand. Identical at every seed."""
+    from jv import listing as L
+    rows = [("test", ["%edi", "%edi"]), ("xor", ["%eax", "%eax"]), ("ret", []), ("test", ["%eax", "%eax"]), ("xor", ["%edi", "%edi"]), ("ret", []),
+            ("test", ["%edi", "%edi"]), ("mov", ["$0x0", "%eax"]), ("ret", []), ("push", ["%rbx"]), ("push", ["%rbx"]), ("ret", []), ("push", ["%rbx"]), ("push", ["%rcx"]), ("ret", []),
+            ("test", ["%esi", "%esi"]), ("push", ["%rsi"]), ("push", ["%rsi"]), ("ret", [])]
+    insts, addr = [], 0x401000
+    for m, ops in rows:
+        insts.append(L.SInst(addr, m, list(ops), None, None, 2))
+        addr += 2
+    text = L.render(insts, ctx.rng, labels=False)
+    lp = ws.write("nested.s", text)
+    inner_a = {"@zero_reg": None, "reg": "eax"}
+    inner_b = {"@zero_reg": {"reg": "eax"}}
+    calls = []
+    for inner in (inner_a, inner_b):
+        calls += [{"@guarded": None, "action": inner, "reg": "edi"}, {"@guarded": None, "reg": "edi", "action": inner},
+                  {"@guarded": {"action": inner, "reg": "edi"}}, {"@guarded": {"reg": "edi", "action": inner}}]
+    calls += [{"@twice": None, "what": {"@save": None, "reg": "rbx"}}, {"@twice": {"what": {"@save": {"reg": "rbx"}}}},
+              {"@guarded": None, "reg": "esi", "action": {"@twice": None, "what": {"@save": None, "reg": "rsi"}}},
+              {"@guarded": None, "action": {"@twice": {"what": {"@save": {"reg": "rsi"}}}}, "reg": "esi"},
+              {"@twice": None, "what": {"@guarded": None, "reg": "edi", "action": {"@zero_reg": None, "reg": "eax"}}}]
+    for call in calls:
+        pat = [call, "ret"]
+        text_m = real.dump_rule({"macros": NESTED_MACROS, "pattern": pat})
+        text_i = real.dump_rule({"pattern": _inline_nested(pat)})
+        pm, pi = ws.write("nest_m.yaml", text_m), ws.write("nest_i.yaml", text_i)
+        a = real.match(pm, lp, ret="list", search="all")
+        b = real.match(pi, lp, ret="list", search="all")
+        ctx.ran(2)
+        ctx.event("nested_call_probes")
+        ctx.case(("nested-call", text_m), b[0] == "ok" and bool(b[1]), stratum="call as argument of a call", outcome="found" if a[0] == "ok" and a[1] else "not found")
+        if a[:2] != b[:2]:
+            ctx.disagreement({"macro_rule": text_m, "extra_macro_files": [], "inlined_rule": text_i, "forms": ["nested-call"], "listing": text,
+                              "sinsts": [[x.addr, x.mnem, x.ops, x.annotation, x.comment, x.nbytes] for x in insts]},
+                             f"a call whose argument is a call: macro rule -> {str(a[:2])[:160]}, inlined by hand -> {str(b[:2])[:160]}")
+
+
 def run_shard(ctx):
     d = drive.Driver(ctx, feat, flags="none", styles=("mixed", "dups", "runs"))
     library_sequence_stratum(ctx, d.ws, ctx.share(48, 2000))
+    if ctx.shard == 3 % ctx.nshards:
+        nested_call_probes(ctx, d.ws)
     n = ctx.share(2000, 250000)
     done = 0
     while done < n:
